@@ -317,7 +317,10 @@ Qed.
 
 Lemma tun_setip_cmd_checks g mask_of ifname ip other nb c :
   tun_setip_cmd_g g mask_of ifname ip other nb = Some c -> setip_checks g ip other = true.
-Proof. unfold tun_setip_cmd_g. destruct (setip_checks g ip other); [reflexivity|discriminate]. Qed.
+Proof.
+  unfold tun_setip_cmd_g. destruct ((nb <? 0)%Z || (32 <? nb)%Z); [discriminate|].
+  destruct (setip_checks g ip other); [reflexivity|discriminate].
+Qed.
 
 Lemma tun_setip_cmd_form g mask_of ifname ip other nb c :
   cfg_safe g = true -> ifname_fits ifname ->
@@ -331,7 +334,7 @@ Proof.
   pose proof (setip_arg_dotted g ip other _ Hc S1) as D1.
   pose proof (setip_arg_dotted g ip other _ Hc S2) as D2.
   split; [exact D1|]. split; [exact D2|].
-  unfold tun_setip_cmd_g in H. rewrite Hc in H.
+  unfold tun_setip_cmd_g in H. destruct ((nb <? 0)%Z || (32 <? nb)%Z); [discriminate|]. rewrite Hc in H.
   rewrite (csnprintf_fits _ _ _ _ (setip_fmt_eval ifname _ _ (inet_ntoa (mask_of nb)))) in H.
   - symmetry. injection H as H. exact H.
   - rewrite setip_text_length.
